@@ -104,7 +104,7 @@ def _nest(depth, missing=None, slot="o"):
 def hostile(draw):
     kind = draw(st.sampled_from(["huge_tables", "huge_frame_len", "huge_row_len", "deep_nesting", "odd_options",
                                  "many_empty_frames", "huge_ids", "bad_utf8", "overlong_varint", "huge_string_len",
-                                 "many_rows", "metadata_flood", "numeric_lexical", "backtracking_strings"]))
+                                 "many_rows", "metadata_flood", "numeric_lexical", "backtracking_strings", "huge_options_numbers"]))
     big = draw(st.sampled_from([4097, 65536, 2 ** 20, 2 ** 24, 2 ** 26, 2 ** 27, 2 ** 28, 2 ** 31 - 1, 2 ** 31, 2 ** 32 - 1]))
     opts = {"physical_type": draw(st.sampled_from([1, 2, 3])), "logical_type": 0, "max_name_table_size": 16,
             "max_prefix_table_size": 8, "max_datatype_table_size": 8, "version": 1}
@@ -163,6 +163,12 @@ def hostile(draw):
             nxt = {"p": ("bnode", "p%d" % k)} if where != "graph" else {"s": ("bnode", "s%d" % k)}
             rows.append(("triple" if where != "graph" else "quad", nxt))
         return wire.enc_stream([{"rows": rows, "metadata": []}], True)
+    if kind == "huge_options_numbers":
+        # every numeric field of the options row is an unvalidated varint the stream merely declares
+        field = draw(st.sampled_from(["version", "version", "physical_type", "logical_type", "max_name_table_size",
+                                      "max_prefix_table_size", "max_datatype_table_size"]))
+        rows = [("options", {**opts, field: draw(st.sampled_from([big, 10 ** 8, 10 ** 9, 2 ** 32 - 1, 2 ** 31 - 1]))})] + base_rows[1:]
+        return wire.enc_stream([{"rows": rows, "metadata": []}], draw(st.booleans()))
     if kind == "huge_tables":
         field = draw(st.sampled_from(["max_name_table_size", "max_prefix_table_size", "max_datatype_table_size"]))
         rows = [("options", {**opts, field: big})] + base_rows[1:]
@@ -533,6 +539,8 @@ def fixed_hostile():
         subj = rows[:2] + [("triple", {"s": ("lit", lexv, ("dt", 1)), "p": ("bnode", "b"), "o": ("bnode", "c")}),
                            ("triple", {"o": ("bnode", "e")})]
         out.append(wire.enc_stream([{"rows": subj, "metadata": []}], True))
+    for ver in (2 ** 32 - 1, 10 ** 9):
+        out.append(wire.enc_stream([{"rows": [("options", {**opts, "version": ver}), ("triple", stmt)], "metadata": []}], True))
     return out
 
 
